@@ -593,7 +593,6 @@ def policy():
 
 # known-finding keys -> members they cover (a `finding: property=C07 key=<key>` line in known_findings.txt puts them in knownUnreset)
 FINDING_KEYS = {
-    "unreset-run-info": ["run_info"],
     "unreset-delete-info": ["delete_info"],
     "unreset-unnumbered-solutions": ["unnumbered_solutions"],
     "unreset-caches": ["gfw_map", "rates_map"],
